@@ -17,22 +17,28 @@ export VERIF_SKIP_MIRI="${VERIF_SKIP_MIRI:-1}"     # Miri adds ~35 s per C15 run
 cd "$VERIF_DIR"
 LIST=("$@")
 if [ ${#LIST[@]} -eq 0 ]; then LIST=($(ls seeded)); fi
-PASS=0; FAIL=0
+PASS=0; FAIL=0; USED=""
 for M in "${LIST[@]}"; do
   [ -f "seeded/$M/patch.diff" ] || continue
-  ID="${M%%-*}"
-  ( cd "$BASE/repo" && git checkout -q -- . && git clean -fdq && git apply "$VERIF_DIR/seeded/$M/patch.diff" ) || { echo "$M: patch does not apply"; FAIL=$((FAIL+1)); continue; }
-  VERIF_EVIDENCE_FILE="$BASE/evidence-$M.json" ./run_check.sh "$ID" quick > "$BASE/$M.log" 2>&1
-  RC=$?
-  if [ $RC -eq 1 ] && grep -q "^VIOLATION property=$ID" "$BASE/$M.log"; then
-    echo "$M: caught ($(grep -m1 '^  violation:' "$BASE/$M.log" | cut -c1-150))"; PASS=$((PASS+1))
-  else
-    echo "$M: MISSED (exit $RC) $(grep -m1 -E 'INCONCLUSIVE|HELD' "$BASE/$M.log" | cut -c1-150)"; FAIL=$((FAIL+1))
+  IDS=$(jq -r '.caught_by_quick | join(" ")' "seeded/$M/meta.json")
+  if [ -z "$IDS" ]; then
+    echo "$M: recorded as NOT DETECTED (limit of the technique, see DESIGN 6c): skipped"; continue
   fi
+  ( cd "$BASE/repo" && git checkout -q -- . && git clean -fdq && git apply "$VERIF_DIR/seeded/$M/patch.diff" ) || { echo "$M: patch does not apply"; FAIL=$((FAIL+1)); continue; }
+  HIT=""
+  for ID in $IDS; do
+    VERIF_EVIDENCE_FILE="$BASE/evidence-$M-$ID.json" ./run_check.sh "$ID" quick > "$BASE/$M-$ID.log" 2>&1
+    RC=$?
+    if [ $RC -eq 1 ] && grep -q "^VIOLATION property=$ID" "$BASE/$M-$ID.log"; then
+      HIT="$ID"; echo "$M: caught by $ID ($(grep -m1 '^  violation:' "$BASE/$M-$ID.log" | cut -c1-140))"; break
+    fi
+  done
+  if [ -n "$HIT" ]; then PASS=$((PASS+1)); else echo "$M: MISSED by $IDS"; FAIL=$((FAIL+1)); fi
+  USED="$USED $IDS"
 done
 ( cd "$BASE/repo" && git checkout -q -- . && git clean -fdq )
 if [ "${SELFTEST_CLEAN:-1}" = "1" ]; then
-  for ID in $(printf '%s\n' "${LIST[@]}" | sed 's/-.*//' | sort -u); do
+  for ID in $(printf '%s\n' $USED | sort -u); do
     VERIF_EVIDENCE_FILE="$BASE/evidence-$ID-clean.json" ./run_check.sh "$ID" quick > "$BASE/$ID-clean.log" 2>&1
     RC=$?
     if [ $RC -eq 0 ]; then echo "$ID: silent on the unpatched copy"; else echo "$ID: NOT silent on the unpatched copy (exit $RC)"; FAIL=$((FAIL+1)); fi
